@@ -12,7 +12,7 @@ def repo_commits():
 CHECKS = {
  "C01": ("E2+E3", "exploration",
    "Bounded systematic schedule exploration: generated small concurrent programs run on real threads under a serialising scheduler that owns every interleaving decision (all 0/1-preemption schedules, budgeted coarse and fine 2-preemption schedules, random sparse tapes); the recorded history is decided by a per-key Wing-Gong linearizability search. Held on everything explored; deep interleavings are sampled.",
-   "Trusted: interleavings at the granularity of flurry's instrumented atomics/locks (seize and parking_lot run atomically between them); sequentially consistent executions only; programs of 2-3 threads x 1-3 ops.",
+   "Trusted: interleavings at the granularity of flurry's instrumented atomics/locks (seize and parking_lot run atomically between them); sequentially consistent executions only; programs of 2-3 threads x 1-3 ops plus long families (4-8 threads x 6-12 ops, random tapes) and concurrent HashSet programs through all four facades.",
    "controlled-schedule concurrency testing (CHESS-style bounded preemption + proptest programs) with a linearizability oracle", "DESIGN.md §4 C01"),
  "C02": ("E1", "exploration",
    "Model-based property testing: generated operation sequences over every public operation, all hashers/capacities/facades, compared step by step with a BTreeMap model; held on everything generated, no exhaustiveness claimed.",
